@@ -154,6 +154,17 @@ theorem sentSound_closed (e : Epoch) : SlotClosed e (SentSound e) where
     simp only [slotStep, hn] at this
     exact this
 
+/-- the completeness invariant of safe-to-skip is closed under the slot-level operations -/
+theorem sinv_closed (e : Epoch) : SlotClosed e (SInv e) where
+  init := SInv.init e
+  vote := fun st v _ i => addVote_sinv e st v i
+  cert := fun st c i => i.of_same (addCert_same st c).1 (fun h => by rw [(addCert_same st c).2.2]; exact h)
+  known := fun st h i => slotStep_sinv e st (.parentKnown h) i
+  certified := fun st h st' evs hn i => by
+    have := slotStep_sinv e st (.parentCertified h) i
+    simp only [slotStep, hn] at this
+    exact this
+
 /-! ### flag soundness -/
 
 /-- the blocks for which a notarization, notar-fallback or fast-finalization certificate was announced -/
